@@ -9,11 +9,44 @@ package main
 // MASK and the case constants are constant expressions over the package's own integer constants; they
 // are evaluated here (hex/decimal literals, identifiers, | & ^ << >> + parentheses).  Anything else is
 // an error.
+//
+// Normalisation "decision on the flags word" (DESIGN.md §7).  A dispatch site and a guard are FUNCTIONS OF
+// THE 16-BIT HEADER FLAGS WORD: which handler runs, whether the packet passes.  The canonical forms above are
+// one way of writing such a function; the reader now accepts every way it can evaluate, and regenerates the
+// canonical form from the function itself:
+//
+//   - a PURE FLAGS EXPRESSION is built from `<p>.Header.Flags` (or, inside a helper, its uint16 parameter; or a
+//     variable bound to a pure flags expression by the `switch` init), integer constants of the package,
+//     parentheses, the conversions uint16/uint32/int, the operators & | ^ &^ << >> + - == != < <= > >= && || !,
+//     and calls of package-level helper functions `func h(x uint16) T { return <pure flags expression over x> }`.
+//     It is evaluated here with Go's uint16 semantics (results of << + - ^ truncated to the operand's width) on
+//     ALL 65 536 words;
+//   - GUARD: `if D1 || … || Dn { … return … }` where some disjunct Di is a pure flags expression that (with
+//     helpers inlined) mentions an Op… constant.  `if A || B { return }` is `if A { return }; if B { return }`
+//     for pure A, so the disjuncts that do not mention the flags word (`len(request.Questions) == 0`) are other
+//     early returns, not part of the opcode guard; EVERY disjunct that does mention it is (also one that names no
+//     Op… constant, e.g. `Flags&FlagResponse != 0`).  The packets that pass are P = {f | no flags disjunct holds};
+//     P must be {f | f&m == c} for some m, c — then (m, c) is unique and is what is emitted.  A disjunct that
+//     mixes the flags word with anything else is refused;
+//   - DISPATCH: `switch [v := T;] T|v { case K…: <x>.handleX(…) … default: response.Header.Flags |= RcodeNotImpl }`
+//     with T a pure flags expression and K constants, or a tagless `switch { case <pure flags condition>: … }`.
+//     Case i takes S_i = {f | first case whose constant equals T(f) is i}; every S_i must be {f | f&m == c_i}
+//     with ONE m for all cases; emitted (m, [(c_i, handler)]) — e.g. a dispatch on the shifted opcode
+//     `(f>>11) & 0xF` with cases `OpRelease>>11` gives back m = 0x7800, c = 0x3000.  The regenerated table is
+//     then run against the source's switch on all 65 536 words and must pick the same arm everywhere;
+//   - DISPATCH THROUGH A SELECTOR: `func (h *T) sel(flags uint16) func(…) { switch … { case K: return h.handleX … }
+//     return nil }` used only as `if f := <x>.sel(<p>.Header.Flags); f != nil { f(…) } else { <default> }` is
+//     the same switch with the call moved behind a function value; the site is the function containing that
+//     `if`, the selector itself is not a site.  Any other use of the selector is refused.
+//
+// A `switch`/`if … return` that mentions `.Header.Flags` together with an Op… constant and is none of these is an
+// error (it used to be skipped silently, so a rewritten guard simply vanished from the facts).
 
 import (
 	"fmt"
 	"go/ast"
 	"go/parser"
+	"go/printer"
 	"go/token"
 	"os"
 	"path/filepath"
@@ -104,6 +137,7 @@ type dispatchCase struct {
 	Handler string `json:"handler"`
 }
 type dispatchSite struct {
+	via     string         // name of the selector function the site dispatches through ("" = a switch of its own)
 	Name    string         `json:"name"`
 	File    string         `json:"file"`
 	Mask    uint64         `json:"mask"`
@@ -167,10 +201,42 @@ func nbnsDispatch(repo string) (string, any, error) {
 	}
 	var sites []dispatchSite
 	var guards []guardSite
+	nd := &nbnsReader{env: env, fset: fset, funcs: map[string]*ast.FuncDecl{}}
+	for _, f := range files {
+		for _, d := range f.Decls {
+			if fd, ok := d.(*ast.FuncDecl); ok && fd.Body != nil && fd.Recv == nil {
+				nd.funcs[fd.Name.Name] = fd
+			}
+		}
+	}
+	// selector functions (dispatch through a function value)
+	selectors := map[string]*dispatchSite{}
+	selUses := map[string]int{}
 	for fi, f := range files {
 		for _, d := range f.Decls {
 			fd, ok := d.(*ast.FuncDecl)
 			if !ok || fd.Body == nil {
+				continue
+			}
+			site, err := nd.selectorFunc(fd, names[fi])
+			if err != nil {
+				return "", nil, err
+			}
+			if site != nil {
+				if _, dup := selectors[fd.Name.Name]; dup {
+					return "", nil, fmt.Errorf("%s: two selector functions named %s", names[fi], fd.Name.Name)
+				}
+				selectors[fd.Name.Name] = site
+			}
+		}
+	}
+	for fi, f := range files {
+		for _, d := range f.Decls {
+			fd, ok := d.(*ast.FuncDecl)
+			if !ok || fd.Body == nil {
+				continue
+			}
+			if _, isSel := selectors[fd.Name.Name]; isSel && fd.Recv != nil {
 				continue
 			}
 			var ferr error
@@ -178,108 +244,52 @@ func nbnsDispatch(repo string) (string, any, error) {
 				if ferr != nil {
 					return false
 				}
-				pos := func(p token.Pos) string { return fset.Position(p).String() }
 				switch x := n.(type) {
+				case *ast.SelectorExpr:
+					if _, ok := selectors[x.Sel.Name]; ok {
+						selUses[x.Sel.Name]++
+					}
 				case *ast.SwitchStmt:
-					be, ok := x.Tag.(*ast.BinaryExpr)
-					if !ok || be.Op != token.AND || !isHeaderFlags(be.X) {
-						return true
-					}
-					mask, err := evalConst(env, be.Y, 0)
+					site, err := nd.dispatchSwitch(x, nil, false)
 					if err != nil {
-						ferr = fmt.Errorf("%s: switch mask: %v", pos(be.Y.Pos()), err)
+						ferr = err
 						return false
 					}
-					site := dispatchSite{Name: funcDisplayName(fd), File: names[fi], Mask: mask}
-					for _, st := range x.Body.List {
-						cc := st.(*ast.CaseClause)
-						if cc.List == nil { // default
-							if len(cc.Body) == 1 {
-								if as, ok := cc.Body[0].(*ast.AssignStmt); ok && as.Tok == token.OR_ASSIGN && len(as.Lhs) == 1 && isHeaderFlags(as.Lhs[0]) {
-									if id, ok := as.Rhs[0].(*ast.Ident); ok && id.Name == "RcodeNotImpl" {
-										site.Default = "notImpl"
-										continue
-									}
-								}
-							}
-							ferr = fmt.Errorf("%s: default clause is not `response.Header.Flags |= RcodeNotImpl`", pos(cc.Pos()))
-							return false
-						}
-						if len(cc.Body) != 1 {
-							ferr = fmt.Errorf("%s: case body is not a single handler call", pos(cc.Pos()))
-							return false
-						}
-						es, ok := cc.Body[0].(*ast.ExprStmt)
-						var hname string
-						if ok {
-							if call, ok := es.X.(*ast.CallExpr); ok {
-								if sel, ok := call.Fun.(*ast.SelectorExpr); ok {
-									hname = sel.Sel.Name
-								}
-							}
-						}
-						if _, known := handlerLean[hname]; !known {
-							ferr = fmt.Errorf("%s: unknown handler %q", pos(cc.Pos()), hname)
-							return false
-						}
-						for _, ce := range cc.List {
-							v, err := evalConst(env, ce, 0)
-							if err != nil {
-								ferr = fmt.Errorf("%s: case constant: %v", pos(ce.Pos()), err)
-								return false
-							}
-							cname := "?"
-							if id, ok := ce.(*ast.Ident); ok {
-								cname = id.Name
-							}
-							site.Cases = append(site.Cases, dispatchCase{Value: v, Const: cname, Handler: hname})
-						}
+					if site != nil {
+						site.Name, site.File = funcDisplayName(fd), names[fi]
+						sites = append(sites, *site)
 					}
-					if site.Default == "" {
-						ferr = fmt.Errorf("%s: dispatch switch without default clause", pos(x.Pos()))
-						return false
-					}
-					sites = append(sites, site)
 				case *ast.IfStmt:
-					ce, ok := x.Cond.(*ast.BinaryExpr)
-					if !ok || ce.Op != token.NEQ {
+					// dispatch through a selector
+					if site, err := nd.selectorCall(x, selectors); err != nil {
+						ferr = err
+						return false
+					} else if site != nil {
+						site.Name, site.File = funcDisplayName(fd), names[fi]
+						sites = append(sites, *site)
+						selUses[site.via]--
 						return true
 					}
-					be, ok := ce.X.(*ast.BinaryExpr)
-					if !ok || be.Op != token.AND || !isHeaderFlags(be.X) {
-						return true
-					}
-					// an *opcode* guard compares with one of the Op… constants (tests of rcode / flag bits are not dispatch)
-					if id, ok := ce.Y.(*ast.Ident); !ok || !isOpConst(id.Name) {
-						return true
-					}
-					mask, err := evalConst(env, be.Y, 0)
+					g, err := nd.guard(x)
 					if err != nil {
-						ferr = fmt.Errorf("%s: guard mask: %v", pos(be.Y.Pos()), err)
+						ferr = err
 						return false
 					}
-					c, err := evalConst(env, ce.Y, 0)
-					if err != nil {
-						ferr = fmt.Errorf("%s: guard constant: %v", pos(ce.Y.Pos()), err)
-						return false
+					if g != nil {
+						g.Name, g.File = funcDisplayName(fd), names[fi]
+						guards = append(guards, *g)
 					}
-					returns := false
-					for _, st := range x.Body.List {
-						if _, ok := st.(*ast.ReturnStmt); ok {
-							returns = true
-						}
-					}
-					if !returns {
-						// a flag test such as `Flags&0x0080 != 0 { nameType = Group }`: not a dispatch decision
-						return true
-					}
-					guards = append(guards, guardSite{Name: funcDisplayName(fd), File: names[fi], Mask: mask, Const: c})
 				}
 				return true
 			})
 			if ferr != nil {
 				return "", nil, ferr
 			}
+		}
+	}
+	for name, n := range selUses {
+		if n != 0 {
+			return "", nil, fmt.Errorf("selector function %s is used other than as `if f := x.%s(p.Header.Flags); f != nil { f(…) } else { … }` (%d uses not understood)", name, name, n)
 		}
 	}
 	if len(sites) == 0 {
@@ -336,4 +346,636 @@ func nbnsDispatch(repo string) (string, any, error) {
 	}
 	b.WriteString("]\n\nend Manticore.Gen.NbnsDispatch\n")
 	return b.String(), map[string]any{"sites": sites, "guards": guards}, nil
+}
+
+// ---- decisions on the flags word ---------------------------------------------------------------------------
+
+type nbnsReader struct {
+	env   constEnv
+	fset  *token.FileSet
+	funcs map[string]*ast.FuncDecl // package-level functions (helpers)
+}
+
+func (r *nbnsReader) pos(p token.Pos) string { return r.fset.Position(p).String() }
+
+// fval: a value of a pure flags expression at one word
+type fval struct {
+	v    uint64
+	w    int // width in bits of a typed integer, 0 for an untyped constant
+	bool bool
+}
+
+type notPure struct{ why string }
+
+func (e notPure) Error() string { return e.why }
+
+// mentionsFlags: the expression contains `<p>.Header.Flags` or the identifier `param`
+func mentionsFlags(e ast.Node, param string) bool {
+	found := false
+	ast.Inspect(e, func(n ast.Node) bool {
+		if x, ok := n.(ast.Expr); ok && isHeaderFlags(x) {
+			found = true
+		}
+		if id, ok := n.(*ast.Ident); ok && param != "" && id.Name == param {
+			found = true
+		}
+		return !found
+	})
+	return found
+}
+
+// mentionsOp: with helpers inlined, the expression names an Op… constant or OpcodeMask
+func (r *nbnsReader) mentionsOp(e ast.Node, depth int) bool {
+	found := false
+	ast.Inspect(e, func(n ast.Node) bool {
+		switch x := n.(type) {
+		case *ast.Ident:
+			if isOpConst(x.Name) || x.Name == "OpcodeMask" {
+				found = true
+			}
+		case *ast.CallExpr:
+			if id, ok := x.Fun.(*ast.Ident); ok && depth < 4 {
+				if fd := r.funcs[id.Name]; fd != nil && r.mentionsOp(fd.Body, depth+1) {
+					found = true
+				}
+			}
+		}
+		return !found
+	})
+	return found
+}
+
+// eval: the value of a pure flags expression at word f; bound: variables standing for the flags word or for values
+func (r *nbnsReader) eval(e ast.Expr, f uint16, bound map[string]fval, depth int) (fval, error) {
+	if depth > 30 {
+		return fval{}, notPure{"expression too deep"}
+	}
+	if isHeaderFlags(e) {
+		return fval{v: uint64(f), w: 16}, nil
+	}
+	trunc := func(x fval) fval {
+		if x.w > 0 && x.w < 64 {
+			x.v &= 1<<uint(x.w) - 1
+		}
+		return x
+	}
+	switch x := e.(type) {
+	case *ast.ParenExpr:
+		return r.eval(x.X, f, bound, depth+1)
+	case *ast.BasicLit:
+		v, err := evalConst(r.env, x, 0)
+		if err != nil {
+			return fval{}, notPure{err.Error()}
+		}
+		return fval{v: v}, nil
+	case *ast.Ident:
+		if b, ok := bound[x.Name]; ok {
+			return b, nil
+		}
+		if x.Name == "true" || x.Name == "false" {
+			return fval{v: map[bool]uint64{true: 1}[x.Name == "true"], bool: true}, nil
+		}
+		if _, ok := r.env[x.Name]; ok {
+			v, err := evalConst(r.env, x, 0)
+			if err != nil {
+				return fval{}, notPure{err.Error()}
+			}
+			return fval{v: v}, nil
+		}
+		return fval{}, notPure{"`" + x.Name + "` is neither the flags word nor a constant of the package"}
+	case *ast.UnaryExpr:
+		a, err := r.eval(x.X, f, bound, depth+1)
+		if err != nil {
+			return fval{}, err
+		}
+		switch {
+		case x.Op == token.NOT && a.bool:
+			return fval{v: 1 - a.v, bool: true}, nil
+		case x.Op == token.XOR && !a.bool && a.w > 0:
+			a.v = ^a.v
+			return trunc(a), nil
+		}
+		return fval{}, notPure{"unary operator " + x.Op.String()}
+	case *ast.CallExpr:
+		if id, ok := x.Fun.(*ast.Ident); ok && len(x.Args) == 1 {
+			if w := map[string]int{"uint16": 16, "uint32": 32, "uint64": 64, "int": 64, "uint": 64, "uint8": 8, "byte": 8}[id.Name]; w != 0 {
+				a, err := r.eval(x.Args[0], f, bound, depth+1)
+				if err != nil || a.bool {
+					return fval{}, notPure{"conversion of a non-integer"}
+				}
+				a.w = w
+				return trunc(a), nil
+			}
+			if fd := r.funcs[id.Name]; fd != nil && depth < 8 {
+				// helper: func h(x uint16) T { return <pure expression over x> }
+				if fd.Type.Params.NumFields() != 1 || len(fd.Type.Params.List[0].Names) != 1 || len(fd.Body.List) != 1 {
+					return fval{}, notPure{"helper " + id.Name + " is not `func(x uint16) T { return <expression> }`"}
+				}
+				pt, _ := fd.Type.Params.List[0].Type.(*ast.Ident)
+				rs, ok := fd.Body.List[0].(*ast.ReturnStmt)
+				if pt == nil || pt.Name != "uint16" || !ok || len(rs.Results) != 1 {
+					return fval{}, notPure{"helper " + id.Name + " is not `func(x uint16) T { return <expression> }`"}
+				}
+				a, err := r.eval(x.Args[0], f, bound, depth+1)
+				if err != nil {
+					return fval{}, err
+				}
+				if a.bool {
+					return fval{}, notPure{"helper " + id.Name + " applied to a condition"}
+				}
+				a.w = 16
+				a = trunc(a)
+				return r.eval(rs.Results[0], f, map[string]fval{fd.Type.Params.List[0].Names[0].Name: a}, depth+1)
+			}
+		}
+		return fval{}, notPure{"call `" + exprText(x) + "`"}
+	case *ast.BinaryExpr:
+		a, err := r.eval(x.X, f, bound, depth+1)
+		if err != nil {
+			return fval{}, err
+		}
+		b, err := r.eval(x.Y, f, bound, depth+1)
+		if err != nil {
+			return fval{}, err
+		}
+		tb := func(c bool) fval { return fval{v: map[bool]uint64{true: 1}[c], bool: true} }
+		if x.Op == token.LAND || x.Op == token.LOR {
+			if !a.bool || !b.bool {
+				return fval{}, notPure{"&& / || of non-conditions"}
+			}
+			if x.Op == token.LAND {
+				return tb(a.v == 1 && b.v == 1), nil
+			}
+			return tb(a.v == 1 || b.v == 1), nil
+		}
+		if a.bool != b.bool {
+			return fval{}, notPure{"operands of different kinds"}
+		}
+		if a.bool {
+			switch x.Op {
+			case token.EQL:
+				return tb(a.v == b.v), nil
+			case token.NEQ:
+				return tb(a.v != b.v), nil
+			}
+			return fval{}, notPure{"operator " + x.Op.String() + " on conditions"}
+		}
+		w := a.w
+		if x.Op != token.SHL && x.Op != token.SHR {
+			if a.w != 0 && b.w != 0 && a.w != b.w {
+				return fval{}, notPure{"operands of different integer types"}
+			}
+			if w == 0 {
+				w = b.w
+			}
+			// an untyped constant must fit the other operand's type (the compiler checks the same)
+			for _, c := range []fval{a, b} {
+				if c.w == 0 && w > 0 && w < 64 && c.v>>uint(w) != 0 {
+					return fval{}, notPure{"constant does not fit the operand's type"}
+				}
+			}
+		}
+		res := fval{w: w}
+		switch x.Op {
+		case token.AND:
+			res.v = a.v & b.v
+		case token.OR:
+			res.v = a.v | b.v
+		case token.XOR:
+			res.v = a.v ^ b.v
+		case token.AND_NOT:
+			res.v = a.v &^ b.v
+		case token.ADD:
+			res.v = a.v + b.v
+		case token.SUB:
+			res.v = a.v - b.v
+		case token.SHL:
+			if b.v >= 64 {
+				res.v = 0
+			} else {
+				res.v = a.v << b.v
+			}
+		case token.SHR:
+			if b.v >= 64 {
+				res.v = 0
+			} else {
+				res.v = a.v >> b.v
+			}
+		case token.EQL:
+			return tb(a.v == b.v), nil
+		case token.NEQ:
+			return tb(a.v != b.v), nil
+		case token.LSS:
+			return tb(a.v < b.v), nil
+		case token.LEQ:
+			return tb(a.v <= b.v), nil
+		case token.GTR:
+			return tb(a.v > b.v), nil
+		case token.GEQ:
+			return tb(a.v >= b.v), nil
+		default:
+			return fval{}, notPure{"operator " + x.Op.String()}
+		}
+		if w == 0 && (x.Op == token.SUB && a.v < b.v) {
+			return fval{}, notPure{"negative constant"}
+		}
+		return trunc(res), nil
+	}
+	return fval{}, notPure{"`" + exprText(e) + "` is not a pure flags expression"}
+}
+
+func exprText(e ast.Node) string {
+	var b strings.Builder
+	_ = printerFprint(&b, e)
+	return b.String()
+}
+
+// maskConst: the unique (m, c) with set == {f | f&m == c}, if there is one
+func maskConst(in *[65536]bool) (m, c uint64, ok bool) {
+	first, n := -1, 0
+	var diff uint64
+	for f := 0; f < 65536; f++ {
+		if in[f] {
+			if first < 0 {
+				first = f
+			}
+			diff |= uint64(f ^ first)
+			n++
+		}
+	}
+	if first < 0 {
+		return 0, 0, false
+	}
+	m = ^diff & 0xFFFF
+	c = uint64(first) & m
+	free := 0
+	for b := 0; b < 16; b++ {
+		if diff>>uint(b)&1 == 1 {
+			free++
+		}
+	}
+	if n != 1<<uint(free) {
+		return 0, 0, false
+	}
+	for f := 0; f < 65536; f++ {
+		if in[f] != (uint64(f)&m == c) {
+			return 0, 0, false
+		}
+	}
+	return m, c, true
+}
+
+func splitOr(e ast.Expr) []ast.Expr {
+	if p, ok := e.(*ast.ParenExpr); ok {
+		return splitOr(p.X)
+	}
+	if b, ok := e.(*ast.BinaryExpr); ok && b.Op == token.LOR {
+		return append(splitOr(b.X), splitOr(b.Y)...)
+	}
+	return []ast.Expr{e}
+}
+
+// guard: see the file comment
+func (r *nbnsReader) guard(x *ast.IfStmt) (*guardSite, error) {
+	returns := false
+	for _, st := range x.Body.List {
+		if _, ok := st.(*ast.ReturnStmt); ok {
+			returns = true
+		}
+	}
+	if !returns || x.Init != nil {
+		// a flag test such as `Flags&0x0080 != 0 { nameType = Group }`: not a dispatch decision
+		return nil, nil
+	}
+	// every disjunct that looks at the flags word belongs to the guard (`Flags&FlagResponse != 0 || Flags&OpcodeMask !=
+	// OpNameQuery` is ONE guard); it is an OPCODE guard if one of them names an Op… constant
+	var flagsD []ast.Expr
+	aboutOpcode := false
+	for _, d := range splitOr(x.Cond) {
+		if mentionsFlags(d, "") {
+			flagsD = append(flagsD, d)
+			aboutOpcode = aboutOpcode || r.mentionsOp(d, 0)
+		}
+	}
+	if !aboutOpcode {
+		return nil, nil // tests of rcode / flag bits / other data are not opcode guards
+	}
+	var pass [65536]bool
+	for f := 0; f < 65536; f++ {
+		pass[f] = true
+		for _, d := range flagsD {
+			v, err := r.eval(d, uint16(f), nil, 0)
+			if err != nil {
+				return nil, fmt.Errorf("%s: opcode guard `%s`: %v", r.pos(d.Pos()), exprText(d), err)
+			}
+			if !v.bool {
+				return nil, fmt.Errorf("%s: opcode guard `%s` is not a condition", r.pos(d.Pos()), exprText(d))
+			}
+			if v.v == 1 {
+				pass[f] = false
+			}
+		}
+	}
+	m, c, ok := maskConst(&pass)
+	if !ok {
+		return nil, fmt.Errorf("%s: the flags words that pass the guard `%s` are not of the form flags&MASK == CONST", r.pos(x.Pos()), exprText(x.Cond))
+	}
+	return &guardSite{Mask: m, Const: c}, nil
+}
+
+// defaultIsNotImpl: the statements are `response.Header.Flags |= RcodeNotImpl`
+func defaultIsNotImpl(body []ast.Stmt) bool {
+	if len(body) != 1 {
+		return false
+	}
+	as, ok := body[0].(*ast.AssignStmt)
+	if !ok || as.Tok != token.OR_ASSIGN || len(as.Lhs) != 1 || !isHeaderFlags(as.Lhs[0]) {
+		return false
+	}
+	id, ok := as.Rhs[0].(*ast.Ident)
+	return ok && id.Name == "RcodeNotImpl"
+}
+
+// dispatchSwitch: see the file comment.  param != "": the switch stands in a selector function whose uint16
+// parameter is the flags word and whose arms `return <x>.handleX` (selector = true).
+func (r *nbnsReader) dispatchSwitch(x *ast.SwitchStmt, bound map[string]fval, selector bool) (*dispatchSite, error) {
+	param := ""
+	for k := range bound {
+		param = k
+	}
+	// is this a decision on the flags word at all?
+	tagNode := ast.Node(x.Body)
+	if x.Tag != nil {
+		tagNode = x.Tag
+	}
+	var initVar string
+	var initExpr ast.Expr
+	if x.Init != nil {
+		if as, ok := x.Init.(*ast.AssignStmt); ok && as.Tok == token.DEFINE && len(as.Lhs) == 1 && len(as.Rhs) == 1 {
+			if id, ok := as.Lhs[0].(*ast.Ident); ok && mentionsFlags(as.Rhs[0], param) {
+				initVar, initExpr = id.Name, as.Rhs[0]
+			}
+		}
+	}
+	about := initVar != "" || mentionsFlags(tagNode, param)
+	if x.Tag == nil && about {
+		// a tagless switch is a dispatch only if its conditions are about the opcode
+		about = false
+		for _, st := range x.Body.List {
+			for _, ce := range st.(*ast.CaseClause).List {
+				if (mentionsFlags(ce, param) || initVar != "" && mentionsFlags(ce, initVar)) && (r.mentionsOp(ce, 0) || initExpr != nil && r.mentionsOp(initExpr, 0)) {
+					about = true
+				}
+			}
+		}
+	} else if about && !selector {
+		// `switch <flags expression>` whose arms call handlers, or whose tag/cases name the opcode
+		named := r.mentionsOp(x.Tag, 0) || initExpr != nil && r.mentionsOp(initExpr, 0)
+		for _, st := range x.Body.List {
+			for _, ce := range st.(*ast.CaseClause).List {
+				if r.mentionsOp(ce, 0) {
+					named = true
+				}
+			}
+		}
+		about = named
+	}
+	if !about {
+		return nil, nil
+	}
+	if x.Init != nil && initVar == "" {
+		return nil, fmt.Errorf("%s: switch init `%s` is not `v := <flags expression>`", r.pos(x.Pos()), exprText(x.Init))
+	}
+	site := &dispatchSite{}
+	type arm struct {
+		conds   []ast.Expr
+		handler string
+	}
+	var arms []arm
+	for _, st := range x.Body.List {
+		cc := st.(*ast.CaseClause)
+		if cc.List == nil { // default
+			if selector {
+				if len(cc.Body) == 1 {
+					if rs, ok := cc.Body[0].(*ast.ReturnStmt); ok && len(rs.Results) == 1 && exprText(rs.Results[0]) == "nil" {
+						site.Default = "nil"
+						continue
+					}
+				}
+				return nil, fmt.Errorf("%s: default clause of a selector is not `return nil`", r.pos(cc.Pos()))
+			}
+			if !defaultIsNotImpl(cc.Body) {
+				return nil, fmt.Errorf("%s: default clause is not `response.Header.Flags |= RcodeNotImpl`", r.pos(cc.Pos()))
+			}
+			site.Default = "notImpl"
+			continue
+		}
+		if len(cc.Body) != 1 {
+			return nil, fmt.Errorf("%s: case body is not a single handler call", r.pos(cc.Pos()))
+		}
+		var hname string
+		if selector {
+			if rs, ok := cc.Body[0].(*ast.ReturnStmt); ok && len(rs.Results) == 1 {
+				if sel, ok := rs.Results[0].(*ast.SelectorExpr); ok {
+					hname = sel.Sel.Name
+				}
+			}
+		} else if es, ok := cc.Body[0].(*ast.ExprStmt); ok {
+			if call, ok := es.X.(*ast.CallExpr); ok {
+				if sel, ok := call.Fun.(*ast.SelectorExpr); ok {
+					hname = sel.Sel.Name
+				}
+			}
+		}
+		if _, known := handlerLean[hname]; !known {
+			return nil, fmt.Errorf("%s: unknown handler %q", r.pos(cc.Pos()), hname)
+		}
+		for _, ce := range cc.List { // `case A, B:` is two entries of the table with one handler
+			arms = append(arms, arm{[]ast.Expr{ce}, hname})
+		}
+	}
+	if site.Default == "" && !selector {
+		return nil, fmt.Errorf("%s: dispatch switch without default clause", r.pos(x.Pos()))
+	}
+	// which arm does each word take?
+	taken := make([]int, 65536) // index of the arm, -1 = default
+	for f := 0; f < 65536; f++ {
+		b := map[string]fval{}
+		for k, v := range bound {
+			v.v = uint64(f)
+			b[k] = v
+		}
+		if initVar != "" {
+			v, err := r.eval(initExpr, uint16(f), b, 0)
+			if err != nil {
+				return nil, fmt.Errorf("%s: dispatch `%s`: %v", r.pos(x.Pos()), exprText(initExpr), err)
+			}
+			b[initVar] = v
+		}
+		var tag fval
+		if x.Tag != nil {
+			var err error
+			if tag, err = r.eval(x.Tag, uint16(f), b, 0); err != nil {
+				return nil, fmt.Errorf("%s: dispatch tag `%s`: %v", r.pos(x.Tag.Pos()), exprText(x.Tag), err)
+			}
+			if tag.bool {
+				return nil, fmt.Errorf("%s: dispatch tag `%s` is a condition", r.pos(x.Tag.Pos()), exprText(x.Tag))
+			}
+		}
+		taken[f] = -1
+	arms:
+		for i, a := range arms {
+			for _, ce := range a.conds {
+				v, err := r.eval(ce, uint16(f), b, 0)
+				if err != nil {
+					return nil, fmt.Errorf("%s: case `%s`: %v", r.pos(ce.Pos()), exprText(ce), err)
+				}
+				hit := false
+				if x.Tag == nil {
+					if !v.bool {
+						return nil, fmt.Errorf("%s: case `%s` of a tagless switch is not a condition", r.pos(ce.Pos()), exprText(ce))
+					}
+					hit = v.v == 1
+				} else {
+					if v.bool {
+						return nil, fmt.Errorf("%s: case `%s` is a condition", r.pos(ce.Pos()), exprText(ce))
+					}
+					if v.w == 0 && tag.w > 0 && tag.w < 64 && v.v>>uint(tag.w) != 0 {
+						return nil, fmt.Errorf("%s: case constant `%s` does not fit the tag's type", r.pos(ce.Pos()), exprText(ce))
+					}
+					hit = v.v == tag.v
+				}
+				if hit {
+					taken[f] = i
+					break arms
+				}
+			}
+		}
+	}
+	// canonical form: one mask, one constant per (arm, case expression) in source order
+	var mask uint64
+	have := false
+	for i, a := range arms {
+		var in [65536]bool
+		any := false
+		for f := 0; f < 65536; f++ {
+			in[f] = taken[f] == i
+			any = any || in[f]
+		}
+		if !any {
+			return nil, fmt.Errorf("%s: no flags word reaches the arm %s", r.pos(x.Pos()), a.handler)
+		}
+		m, c, ok := maskConst(&in)
+		if !ok || have && m != mask {
+			return nil, fmt.Errorf("%s: the flags words that take the arm %s are not of the form flags&MASK == CONST with one MASK for the whole switch", r.pos(x.Pos()), a.handler)
+		}
+		mask, have = m, true
+		cname := "?"
+		if id, ok := a.conds[0].(*ast.Ident); ok {
+			cname = id.Name
+		}
+		site.Cases = append(site.Cases, dispatchCase{Value: c, Const: cname, Handler: a.handler})
+	}
+	if !have {
+		return nil, fmt.Errorf("%s: dispatch switch without cases", r.pos(x.Pos()))
+	}
+	site.Mask = mask
+	// the regenerated table must pick the source's arm on every word
+	for f := 0; f < 65536; f++ {
+		want := -1
+		for i, c := range site.Cases {
+			if uint64(f)&mask == c.Value {
+				want = i
+				break
+			}
+		}
+		if want != taken[f] {
+			return nil, fmt.Errorf("%s: the dispatch is not a first-match table on flags&%#x (word %#x)", r.pos(x.Pos()), mask, f)
+		}
+	}
+	return site, nil
+}
+
+// selectorFunc: `func (h *T) sel(flags uint16) func(…) { switch … { case K: return h.handleX … } return nil }`
+func (r *nbnsReader) selectorFunc(fd *ast.FuncDecl, file string) (*dispatchSite, error) {
+	if fd.Type.Params.NumFields() != 1 || len(fd.Type.Params.List[0].Names) != 1 || fd.Type.Results.NumFields() != 1 {
+		return nil, nil
+	}
+	if pt, ok := fd.Type.Params.List[0].Type.(*ast.Ident); !ok || pt.Name != "uint16" {
+		return nil, nil
+	}
+	if _, ok := fd.Type.Results.List[0].Type.(*ast.FuncType); !ok {
+		return nil, nil
+	}
+	if len(fd.Body.List) < 1 || len(fd.Body.List) > 2 {
+		return nil, nil
+	}
+	sw, ok := fd.Body.List[0].(*ast.SwitchStmt)
+	if !ok {
+		return nil, nil
+	}
+	param := fd.Type.Params.List[0].Names[0].Name
+	site, err := r.dispatchSwitch(sw, map[string]fval{param: {w: 16}}, true)
+	if err != nil || site == nil {
+		return nil, err
+	}
+	if len(fd.Body.List) == 2 {
+		rs, ok := fd.Body.List[1].(*ast.ReturnStmt)
+		if !ok || len(rs.Results) != 1 || exprText(rs.Results[0]) != "nil" || site.Default != "" {
+			return nil, fmt.Errorf("%s: selector %s does not end in `return nil`", r.pos(fd.Pos()), fd.Name.Name)
+		}
+	} else if site.Default != "nil" {
+		return nil, fmt.Errorf("%s: selector %s has no `return nil` for the other opcodes", r.pos(fd.Pos()), fd.Name.Name)
+	}
+	site.via = fd.Name.Name
+	return site, nil
+}
+
+// selectorCall: `if f := <x>.sel(<p>.Header.Flags); f != nil { f(…) } else { response.Header.Flags |= RcodeNotImpl }`
+func (r *nbnsReader) selectorCall(x *ast.IfStmt, selectors map[string]*dispatchSite) (*dispatchSite, error) {
+	as, ok := x.Init.(*ast.AssignStmt)
+	if !ok || as.Tok != token.DEFINE || len(as.Lhs) != 1 || len(as.Rhs) != 1 {
+		return nil, nil
+	}
+	call, ok := as.Rhs[0].(*ast.CallExpr)
+	if !ok {
+		return nil, nil
+	}
+	sel, ok := call.Fun.(*ast.SelectorExpr)
+	if !ok || selectors[sel.Sel.Name] == nil {
+		return nil, nil
+	}
+	v := exprText(as.Lhs[0])
+	bad := func(why string) (*dispatchSite, error) {
+		return nil, fmt.Errorf("%s: dispatch through %s: %s", r.pos(x.Pos()), sel.Sel.Name, why)
+	}
+	if len(call.Args) != 1 || !isHeaderFlags(call.Args[0]) {
+		return bad("the argument is not `<p>.Header.Flags`")
+	}
+	if exprText(x.Cond) != v+" != nil" {
+		return bad("the condition is not `" + v + " != nil`")
+	}
+	if len(x.Body.List) != 1 {
+		return bad("the body is not the single call of the selected handler")
+	}
+	es, ok := x.Body.List[0].(*ast.ExprStmt)
+	if !ok {
+		return bad("the body is not the single call of the selected handler")
+	}
+	hc, ok := es.X.(*ast.CallExpr)
+	if !ok || exprText(hc.Fun) != v {
+		return bad("the body is not the single call of the selected handler")
+	}
+	eb, ok := x.Else.(*ast.BlockStmt)
+	if !ok || !defaultIsNotImpl(eb.List) {
+		return bad("the else branch is not `response.Header.Flags |= RcodeNotImpl`")
+	}
+	site := *selectors[sel.Sel.Name]
+	site.Cases = append([]dispatchCase(nil), site.Cases...)
+	site.Default = "notImpl"
+	return &site, nil
+}
+
+func printerFprint(b *strings.Builder, n ast.Node) error {
+	return printer.Fprint(b, token.NewFileSet(), n)
 }
